@@ -23,7 +23,7 @@ RULE = (
     "peer = independent stdlib ssl engine in shape eager | write-then-read, or a second AsyncTLSStreamTransport (mirror); TLS 1.2/1.3, both roles; "
     "writes of 1 byte .. 3 records via send_all / send_all_from_iterable, each carrying a unique 16-byte marker; cipher-text fragmentation down to 1 byte, "
     "per-fragment delays, link capacity 2 KiB .. 1 MiB per direction, short writes, selector hold/reorder; aio-duplex-chatty: two library writer tasks with 30-120 small back-to-back writes each "
-    "(continuous hand-over of the transport send lock) + a reader, against a write-then-read peer sending 3-8 bursts of 40-300 KB over 2-16 KiB links; non-trivial = a fault kind fired and >= 1 write completed"
+    "(continuous hand-over of the transport send lock) + a reader, against a write-then-read peer sending 3-8 bursts of 40-300 KB over 2-16 KiB links; aio-pha: TLS 1.3 post-handshake client authentication (cipher-text produced by a read) requested while a back-pressured writer owns the send lock / in a read-only phase after a queued writer was cancelled; non-trivial = a fault kind fired and >= 1 write completed"
 )
 COMPONENTS_REAL = [
     "easynetwork AsyncTLSStreamTransport",
@@ -452,9 +452,134 @@ def _h_cancelled_writer(world: World) -> None:
     world.progress(2)
 
 
+def _h_pha(world: World) -> None:
+    """Cipher-text produced by a READ must leave the library (TLS 1.3 post-handshake client authentication is the one way the
+    stdlib offers to provoke that: the server asks for the client's certificate after the handshake, the client's answer is
+    produced while it *reads* the request).  The library is the client; a reader task keeps reading; the reference peer asks
+    for the certificate
+      * while a writer, suspended by back-pressure, owns the transport send lock (the reader must leave the flush to the
+        owner, and the owner must flush what was added meanwhile before it releases the lock), or
+      * in a read-only phase after the writers are done, one of them having been cancelled while it was queued on the lock
+        (nobody is flushing any more: the reader has to flush by itself).
+    Oracle: once the peer reads again, it obtains the client's certificate within 30 virtual seconds, without the harness
+    issuing any further write or close; the bytes both sides read are exactly the bytes written."""
+    seed16 = world.choose("markerseed", 1 << 16)
+    lib_server = False
+    version = "1.3"
+    mode = world.pick("pha.mode", ["owner-blocked", "read-only-phase"])
+    cap = world.pick("cap", [4096, 2048, 16384])
+    n1 = world.pick("w1size", [40000, 90000, 20000])
+    n2 = world.pick("w2size", [17, 500, 20000])
+    with_w2 = bool(world.choose("w2", 2)) or mode == "read-only-phase"
+    cancel_w2 = with_w2 and (bool(world.choose("cancel_w2", 2)) or mode == "read-only-phase")
+    start2 = 2 + world.choose("start2", 6)
+    cancel_at = start2 + 1 + world.choose("cancel_gap", 8)
+    req_at = cancel_at + 1 + world.choose("req_gap", 8)  # owner-blocked: the request arrives while writer1 still owns the lock
+    resume_at = req_at + 1 + world.choose("resume_gap", 8)
+    nb = 1 + world.choose("pha.nb", 3000)  # application bytes that carry the request
+    bufsize = world.pick("bufsize", [65536, 100, 4096])
+    net = SimNet(world)
+    backend = SimAsyncIOBackend(net)
+    lib, psock = net.socketpair(capacity_ab=cap, capacity_ba=1 << 20)
+    world.fault("capacity_small")
+    peer = TLSPeer(world, psock, server_side=True, version=version, pha=True)
+    P1, P2 = _payload(seed16, "A", 0, n1), _payload(seed16, "A2", 0, n2)
+    B1, B2 = _payload(seed16, "B", 0, nb), _payload(seed16, "B", 1, 17)
+    world.notes.update(mode=mode, cap=cap, sizes=[n1, n2, nb], with_w2=with_w2, cancel_w2=cancel_w2, start2=start2, cancel_at=cancel_at, req_at=req_at, resume_at=resume_at, bufsize=bufsize)
+    state: dict[str, Any] = {"got": bytearray()}
+
+    def ask() -> None:
+        peer.engine.request_client_cert()
+        peer.write(B1)  # the CertificateRequest leaves with this write
+        world.log("pha_request", "peer")
+        world.fault("tls_post_handshake_auth")
+
+    async def main() -> None:
+        tr = await backend.wrap_stream_socket(lib)
+        tls = await AsyncTLSStreamTransport.wrap(tr, make_context(False, version, True), server_side=False, server_hostname="sim.host", handshake_timeout=2000.0)
+        await asyncio.sleep(1 / 64)
+        loop = asyncio.get_running_loop()
+
+        async def reader() -> None:
+            while True:
+                data = await tls.recv(bufsize)
+                if not data:
+                    return
+                state["got"] += data
+
+        rt = loop.create_task(reader(), name="reader")
+        peer.paused = True
+        world.fault("peer_stops_reading")
+
+        async def w1() -> None:
+            await tls.send_all(P1)
+
+        async def w2() -> None:
+            await asyncio.sleep(start2 / 64)
+            await tls.send_all(P2)
+
+        t1 = loop.create_task(w1(), name="writer1")
+        t2 = loop.create_task(w2(), name="writer2") if with_w2 else None
+        await asyncio.sleep(cancel_at / 64)
+        if t1.done():
+            raise Violation("harness/no-backpressure", "writer1 finished although the peer is not reading", key="C08/pha/harness")
+        if t2 is not None and cancel_w2:
+            t2.cancel()
+            world.fault("cancel_at_time")
+        if mode == "owner-blocked":
+            await asyncio.sleep((req_at - cancel_at) / 64)
+            ask()
+            await asyncio.sleep((resume_at - req_at) / 64)
+            peer.resume()
+        else:
+            await asyncio.sleep((resume_at - cancel_at) / 64)
+            peer.resume()
+            await asyncio.wait([t for t in (t1, t2) if t is not None], timeout=4000)
+            if not t1.done():
+                raise Deadlock("writer1 never finished")
+            await asyncio.sleep(req_at / 64)  # everything looks healthy: nobody is writing any more
+            ask()
+        t_ref = world.now
+        while not peer.engine.client_cert_received and world.now < t_ref + 30.0:
+            await asyncio.sleep(1 / 64)
+        state["cert"] = peer.engine.client_cert_received
+        state["cert_after"] = world.now - t_ref
+        await asyncio.wait([t for t in (t1, t2) if t is not None], timeout=4000)
+        state["w1_done"] = t1.done() and not t1.cancelled() and t1.exception() is None
+        peer.write(B2)
+        await asyncio.sleep(1.0)
+        rt.cancel()
+        await asyncio.wait([rt])
+        with backend.move_on_after(5.0):
+            await tls.aclose()
+
+    try:
+        run_async(world, main)
+    except Deadlock:
+        raise Violation("deadlock", f"writer1 never finishes after the peer resumed reading; notes={world.notes}", key="C08/pha/deadlock") from None
+    if not state.get("cert"):
+        raise Violation(
+            "read-produced-ciphertext-is-sent",
+            f"the peer asked for the client certificate (TLS 1.3 post-handshake authentication, mode {mode}); 30 virtual seconds after it started reading again "
+            f"it still has not received the answer which the library's reader produced: the cipher-text never left the transport; notes={world.notes}",
+            key=f"C08/pha/{mode}/answer-never-sent",
+        )
+    world.progress()
+    if not state.get("w1_done"):
+        raise Violation("writer-failed", f"writer1 did not complete normally; notes={world.notes}", key="C08/pha/writer-failed")
+    if peer.engine.error is not None:
+        raise Violation("tls-stream-corrupted", f"the reference peer could not decrypt the stream: {type(peer.engine.error).__name__}: {peer.engine.error}", key="C08/pha/tls-stream-corrupted")
+    if bytes(state["got"]) != B1 + B2:
+        raise Violation("plaintext-equal", f"the library read {len(state['got'])} bytes, the peer wrote {len(B1) + len(B2)}", key="C08/pha/plaintext-equal/lib")
+    got = bytes(peer.plain_in)
+    if got not in ((P1, P1 + P2) if (with_w2 and cancel_w2) else ((P1 + P2, P2 + P1) if with_w2 else (P1,))):
+        raise Violation("plaintext-equal", f"the peer read {len(got)} bytes; writer sizes {n1}, {n2} (writer2 {'cancelled while queued' if cancel_w2 else 'present' if with_w2 else 'absent'})", key="C08/pha/plaintext-equal/peer")
+
+
 HARNESSES = [
     Harness("aio-cancelled-writer", _h_cancelled_writer, weight=1, wall_limit=180.0),
     Harness("aio-duplex", _h_aio, weight=3, wall_limit=180.0),
     Harness("aio-duplex-chatty", lambda w: _h_aio(w, True), weight=3, wall_limit=180.0),
     Harness("sync-sequential", _h_sync, weight=1, wall_limit=180.0),
+    Harness("aio-pha", _h_pha, weight=1, wall_limit=180.0),
 ]
